@@ -301,3 +301,48 @@ theorem decode_encode_multLang_iff (cfg : Cfg) (env : Env) (lib : Lib) (li : Nat
     · exact hother l idx (by rw [hm]; simp) h1
 
 end Polyseed.C01
+
+namespace Polyseed.C01
+
+theorem joinWords_all (sep : List Nat) (p : Nat → Bool) (hsep : sep.all p = true) :
+    ∀ ws : List (List Nat), (∀ w ∈ ws, w.all p = true) → (joinWords sep ws).all p = true := by
+  intro ws
+  induction ws with
+  | nil => intro _; rfl
+  | cons w ws ih =>
+    intro h
+    cases ws with
+    | nil => simpa [joinWords] using h w (by simp)
+    | cons w2 rest =>
+      simp only [joinWords, List.all_append, Bool.and_eq_true]
+      exact ⟨⟨h w (by simp), hsep⟩, ih (fun x hx => h x (by simp [hx]))⟩
+
+
+/-- For an all-ASCII language (`asciiCheck`: English, Italian, Czech, Portuguese — `Tables.T0/T5/T6/T7.asciiOk`)
+the normaliser hypothesis holds outright for every seed and coin: the round trip needs no assumption about the
+injected normalisers at all. -/
+theorem normOK_of_asciiCheck (cfg : Cfg) (env : Env) (lib : Lib) (L : Lang) (d : Data) (coin : Nat)
+    (ha : asciiCheck L = true) (hlen : (encodeTmp L d coin).length < cfg.strSize) : NormOK cfg env lib L d coin := by
+  simp only [asciiCheck, Bool.and_eq_true, List.all_eq_true, decide_eq_true_eq, Bool.not_eq_true'] at ha
+  obtain ⟨⟨hw, hsep⟩, hc⟩ := ha
+  apply normOK_ascii cfg env lib L d coin hc hsep hlen
+  have hall : (encodeTmp L d coin).all (fun b => Nat.blt b 128) = true := by
+    unfold encodeTmp
+    apply joinWords_all
+    · rw [hsep]; rfl
+    · intro w hw'
+      simp only [List.mem_map] at hw'
+      obtain ⟨c, _, rfl⟩ := hw'
+      by_cases hlt : c < L.words.size
+      · have : L.words.getD c [] = L.words[c] := by simp [Array.getD, hlt]
+        rw [this, List.all_eq_true]
+        exact hw L.words[c] (by simp)
+      · have : L.words.getD c [] = [] := by simp [Array.getD, hlt]
+        rw [this]; rfl
+  rw [List.any_eq_false]
+  intro b hb
+  have := List.all_eq_true.mp hall b hb
+  have hlt : b < 128 := by unfold Nat.blt at this; exact Nat.le_of_ble_eq_true this
+  simp only [isNeg, decide_eq_true_eq]; omega
+
+end Polyseed.C01
